@@ -446,6 +446,15 @@ Proof. destruct o as [d w c]. reflexivity. Qed.
 Lemma recv_closed s c : crecv s = true -> recv s c = ROk (s, no_out).
 Proof. intros H. unfold WebSocket.recv. now rewrite H. Qed.
 
+Lemma on_close_crecv s s2 o2 : on_close keyfn client s = ROk (s2, o2) -> crecv s2 = crecv s.
+Proof.
+  unfold on_close. destruct (csent s).
+  - intros H; inversion H; reflexivity.
+  - destruct (encode_tail _ _); [|discriminate]. intros H; inversion H; reflexivity.
+Qed.
+Lemma on_close_no_fuel s : on_close keyfn client s <> RFuel.
+Proof. unfold on_close. destruct (csent s); [discriminate|]. destruct (encode_tail _ _); discriminate. Qed.
+
 (* two consecutive reads = one read of the concatenation *)
 Lemma recv_app s a b : recv_all s [a; b] = recv s (a ++ b).
 Proof.
@@ -459,8 +468,10 @@ Proof.
     destruct (loop (S (length (d ++ b))) (csent s) (ps s) d) as [r| |] eqn:E1; [|now rewrite A|contradiction].
     rewrite A. clear A.
     destruct (r_closed r) eqn:Er.
-    + rewrite Er. unfold on_close. cbn [crecv csent buf WebSocket.ps].
-      rewrite recv_closed by reflexivity. now rewrite out_app_nil_r.
+    + rewrite Er.
+      destruct (on_close keyfn client _) as [[s2 o2]| |] eqn:EO; try reflexivity.
+      apply on_close_crecv in EO. cbn [crecv] in EO.
+      rewrite recv_closed by exact EO. now rewrite out_app_nil_r.
     + unfold WebSocket.recv. cbn [crecv csent buf WebSocket.ps].
       pose proof (loop_buf_len keyfn client _ _ _ _ _ E1) as BL.
       rewrite (loop_fuel keyfn client (S (length (r_buf r ++ b))) (S (length (d ++ b))))
@@ -469,9 +480,9 @@ Proof.
         try reflexivity.
       cbn [r_closed r_msgs r_writes r_buf r_ps].
       destruct (r_closed y).
-      * unfold on_close. cbn [crecv csent buf WebSocket.ps written pclose].
+      * destruct (on_close keyfn client _) as [[s2 o2]| |]; try reflexivity.
         unfold out_app, no_out. cbn [delivered written pclose].
-        rewrite !app_nil_r, <- !app_assoc. reflexivity.
+        rewrite !app_nil_r, <- !app_assoc, Nat.add_0_r. reflexivity.
       * unfold out_app, no_out. cbn [delivered written pclose].
         rewrite !app_nil_r. reflexivity.
 Qed.
@@ -529,7 +540,9 @@ Proof.
   unfold WebSocket.recv. destruct (crecv s); [discriminate|].
   pose proof (loop_no_fuel keyfn client (S (length (buf s ++ c))) (csent s) (ps s) (buf s ++ c) ltac:(lia)) as F.
   destruct (loop _ _ _ _) as [r| |]; try congruence.
-  destruct (r_closed r); [unfold on_close|]; discriminate.
+  destruct (r_closed r); [|discriminate].
+  pose proof (on_close_no_fuel (mkS (r_buf r) (r_ps r) true (csent s))) as NF.
+  destruct (on_close keyfn client _) as [[s2 o2]| |]; congruence.
 Qed.
 
 End Comp.
@@ -562,6 +575,21 @@ Lemma pongs_app a : forall n b, pongs n (a ++ b) = pongs n a ++ pongs (bumps n (
 Proof. induction a as [|q a IH]; intros n b; [reflexivity|]. cbn. now rewrite IH. Qed.
 Lemma bumps_add a : forall n b, bumps n (a + b) = bumps (bumps n a) b.
 Proof. induction a as [|a IH]; intros n b; [reflexivity|]. cbn. now rewrite IH. Qed.
+
+(* ... unless the endpoint's close frame has been sent ([cs]): then pings are not answered *)
+Definition pongs_if (cs : bool) (n : nat) (qs : list (list N)) : list (list N) :=
+  if cs then [] else pongs n qs.
+Definition bumps_if (cs : bool) (n k : nat) : nat := if cs then n else bumps n k.
+
+Lemma pongs_if_app cs a n b :
+  pongs_if cs n (a ++ b) = pongs_if cs n a ++ pongs_if cs (bumps_if cs n (length a)) b.
+Proof. destruct cs; [reflexivity|apply pongs_app]. Qed.
+Lemma bumps_if_add cs a n b : bumps_if cs n (a + b) = bumps_if cs (bumps_if cs n a) b.
+Proof. destruct cs; [reflexivity|apply bumps_add]. Qed.
+Lemma bumps_if_0 cs n : bumps_if cs n 0 = n.
+Proof. now destruct cs. Qed.
+Lemma pongs_if_nil cs n : pongs_if cs n [] = [].
+Proof. now destruct cs. Qed.
 
 Definition prepend (ms : list msg) (ws : list (list N)) (r : R pres) : R pres :=
   match r with
@@ -606,11 +634,12 @@ Lemma loop_rfc f cs p fin op mk pl t : op < 16 -> wf_len pl ->
   end.
 Proof. intros Ho Hp Hf. apply loop_step; [exact Hf|]. now apply parse_rfc_frame. Qed.
 
-Lemma act_ping p q : frame_act false p true 9 q =
-  AWrite (rfc_frame true 10 (okey (nk p)) q) (mkP (pend p) (ptype p) (bump (nk p))).
+Lemma act_ping cs p q : frame_act cs p true 9 q =
+  if cs then ASkip p
+  else AWrite (rfc_frame true 10 (okey (nk p)) q) (mkP (pend p) (ptype p) (bump (nk p))).
 Proof.
   unfold WebSocket.frame_act. change (9 <? 8) with false. change (9 =? 8) with false.
-  change (9 =? 9) with true. cbv iota.
+  change (9 =? 9) with true. cbv iota. destruct cs; [reflexivity|].
   rewrite out_key_okey, encode_tail_rfc. reflexivity.
 Qed.
 
@@ -620,24 +649,27 @@ Proof. reflexivity. Qed.
 Lemma act_close cs p q : frame_act cs p true 8 q = AClose.
 Proof. reflexivity. Qed.
 
-Lemma loop_ctls cl : forall f p t, Forall wf_ctl cl ->
+Lemma loop_ctls cl : forall f cs p t, Forall wf_ctl cl ->
   (length (ctls_bytes cl ++ t) < f)%nat ->
-  loop f false p (ctls_bytes cl ++ t) =
-  prepend [] (pongs (nk p) (concat (map ctl_pings cl)))
-    (loop f false (mkP (pend p) (ptype p) (bumps (nk p) (length (concat (map ctl_pings cl))))) t).
+  loop f cs p (ctls_bytes cl ++ t) =
+  prepend [] (pongs_if cs (nk p) (concat (map ctl_pings cl)))
+    (loop f cs (mkP (pend p) (ptype p) (bumps_if cs (nk p) (length (concat (map ctl_pings cl))))) t).
 Proof.
-  induction cl as [|c cl IH]; intros f p t W Hf.
-  - cbn. rewrite prepend_nil. now destruct p.
+  induction cl as [|c cl IH]; intros f cs p t W Hf.
+  - cbn. rewrite pongs_if_nil, bumps_if_0, prepend_nil. now destruct p.
   - inversion W as [|? ? Wc Wl]; subst.
     unfold ctls_bytes in *. cbn [map concat] in *. rewrite <- app_assoc in *.
     assert (Hf' : (length (concat (map ctl_frame cl) ++ t) < f)%nat)
       by (rewrite app_length in Hf; lia).
     destruct c as [k q|k q]; cbn [ctl_frame ctl_pings app] in *.
     + rewrite loop_rfc by (try assumption; lia). rewrite act_ping.
-      rewrite (IH f _ t Wl Hf'). cbn [pend ptype nk pongs bumps length].
-      rewrite add_write_prepend, prepend_prepend. reflexivity.
+      destruct cs.
+      * rewrite (IH f true p t Wl Hf'). reflexivity.
+      * rewrite (IH f false _ t Wl Hf'). unfold pongs_if, bumps_if.
+        cbn [pend ptype nk pongs bumps length].
+        rewrite add_write_prepend, prepend_prepend. reflexivity.
     + rewrite loop_rfc by (try assumption; lia). rewrite act_pong.
-      now rewrite (IH f p t Wl Hf').
+      now rewrite (IH f cs p t Wl Hf').
 Qed.
 
 Definition frags_pings (l : list frag) : list (list N) :=
@@ -648,13 +680,13 @@ Proof. unfold frags_pings. cbn [map concat]. now rewrite map_app, concat_app. Qe
 
 (* continuation frames complete the pending message; control frames in between are answered
    and leave it alone *)
-Lemma loop_conts more : forall f acc ty n t, more <> [] -> Forall wf_frag more ->
+Lemma loop_conts more : forall f cs acc ty n t, more <> [] -> Forall wf_frag more ->
   (length (conts_bytes more ++ t) < f)%nat ->
-  loop f false (mkP acc (Some ty) n) (conts_bytes more ++ t) =
-  prepend [(ty =? 1, acc ++ concat (map frag_payload more))] (pongs n (frags_pings more))
-    (loop f false (mkP [] None (bumps n (length (frags_pings more)))) t).
+  loop f cs (mkP acc (Some ty) n) (conts_bytes more ++ t) =
+  prepend [(ty =? 1, acc ++ concat (map frag_payload more))] (pongs_if cs n (frags_pings more))
+    (loop f cs (mkP [] None (bumps_if cs n (length (frags_pings more)))) t).
 Proof.
-  induction more as [|[[k pl] cl] r IH]; intros f acc ty n t NE W Hf; [contradiction|].
+  induction more as [|[[k pl] cl] r IH]; intros f cs acc ty n t NE W Hf; [contradiction|].
   inversion W as [|? ? [Wp Wc] Wr]; subst. cbn [frag_payload frag_ctls fst snd] in Wp, Wc.
   cbn [conts_bytes] in *. rewrite <- !app_assoc in *.
   rewrite frags_pings_cons. cbn [frag_ctls snd map concat frag_payload fst].
@@ -665,33 +697,37 @@ Proof.
   - (* last fragment *)
     unfold WebSocket.frame_act. change (0 <? 8) with true. cbv iota. cbn [pend ptype nk].
     cbn [conts_bytes app] in *.
-    rewrite (loop_ctls cl f _ t Wc Hf1). cbn [pend ptype nk].
+    rewrite (loop_ctls cl f cs _ t Wc Hf1). cbn [pend ptype nk].
     rewrite add_msg_prepend, prepend_prepend. cbn [app concat map].
     unfold frags_pings. cbn [map concat]. rewrite !app_nil_r.
     unfold is_text. change (0 =? 1) with false. change (0 =? 0) with true. cbn [orb andb].
     reflexivity.
   - unfold WebSocket.frame_act. change (0 <? 8) with true. cbv iota. cbn [pend ptype nk].
     change (0 =? 0) with true. cbv iota.
-    rewrite (loop_ctls cl f _ _ Wc Hf1). cbn [pend ptype nk].
+    rewrite (loop_ctls cl f cs _ _ Wc Hf1). cbn [pend ptype nk].
     assert (Hf2 : (length (conts_bytes (fr :: r') ++ t) < f)%nat)
       by (rewrite app_length in Hf1; lia).
-    rewrite (IH f (acc ++ pl) ty _ t ltac:(discriminate) Wr Hf2).
-    rewrite prepend_prepend. cbn [app]. rewrite pongs_app, <- app_assoc.
-    rewrite app_length, bumps_add. reflexivity.
+    rewrite (IH f cs (acc ++ pl) ty _ t ltac:(discriminate) Wr Hf2).
+    rewrite prepend_prepend. cbn [app]. rewrite pongs_if_app, <- app_assoc.
+    rewrite app_length, bumps_if_add. reflexivity.
 Qed.
 
 Lemma item_pings_msg text f more : item_pings (IMsg text f more) = frags_pings (f :: more).
 Proof. unfold item_pings, frags_pings. cbn [map concat]. reflexivity. Qed.
 
-Lemma loop_item i : forall f n t, wf_item i ->
+(* _pending_type after an item: a message resets it, a control frame leaves it *)
+Definition item_pt (pt : option N) (i : item) : option N :=
+  match i with IMsg _ _ _ => None | ICtl _ => pt end.
+
+Lemma loop_item i : forall f cs pt n t, wf_item i ->
   (length (item_bytes i ++ t) < f)%nat ->
-  loop f false (mkP [] None n) (item_bytes i ++ t) =
-  prepend (item_msgs i) (pongs n (item_pings i))
-    (loop f false (mkP [] None (bumps n (length (item_pings i)))) t).
+  loop f cs (mkP [] pt n) (item_bytes i ++ t) =
+  prepend (item_msgs i) (pongs_if cs n (item_pings i))
+    (loop f cs (mkP [] (item_pt pt i) (bumps_if cs n (length (item_pings i)))) t).
 Proof.
-  destruct i as [text [[k pl] cl] more|c]; intros f n t W Hf.
+  destruct i as [text [[k pl] cl] more|c]; intros f cs pt n t W Hf.
   - destruct W as [[Wp Wc] Wm]. cbn [frag_payload frag_ctls fst snd] in Wp, Wc.
-    rewrite item_pings_msg, frags_pings_cons. cbn [frag_ctls snd].
+    rewrite item_pings_msg, frags_pings_cons. cbn [frag_ctls snd item_pt].
     cbn [item_bytes item_msgs frag_payload fst snd] in *. rewrite <- !app_assoc in *.
     assert (Hop : (if text then 1 else 2) < 16) by (destruct text; lia).
     rewrite loop_rfc by (try assumption; lia).
@@ -701,7 +737,7 @@ Proof.
     + unfold WebSocket.frame_act.
       replace ((if text then 1 else 2) <? 8) with true by (destruct text; reflexivity).
       cbv iota. cbn [pend ptype nk conts_bytes app] in *.
-      rewrite (loop_ctls cl f _ t Wc Hf1). cbn [pend ptype nk].
+      rewrite (loop_ctls cl f cs _ t Wc Hf1). cbn [pend ptype nk].
       rewrite add_msg_prepend, prepend_prepend. cbn [app concat map].
       unfold frags_pings. cbn [map concat]. rewrite !app_nil_r.
       unfold is_text. destruct text; reflexivity.
@@ -709,71 +745,201 @@ Proof.
       replace ((if text then 1 else 2) <? 8) with true by (destruct text; reflexivity).
       replace ((if text then 1 else 2) =? 0) with false by (destruct text; reflexivity).
       cbv iota. cbn [pend ptype nk app].
-      rewrite (loop_ctls cl f _ _ Wc Hf1). cbn [pend ptype nk].
+      rewrite (loop_ctls cl f cs _ _ Wc Hf1). cbn [pend ptype nk].
       assert (Hf2 : (length (conts_bytes (fr :: more') ++ t) < f)%nat)
         by (rewrite app_length in Hf1; lia).
-      rewrite (loop_conts (fr :: more') f pl _ _ t ltac:(discriminate) Wm Hf2).
-      rewrite prepend_prepend. cbn [app]. rewrite pongs_app.
-      rewrite app_length, bumps_add.
+      rewrite (loop_conts (fr :: more') f cs pl _ _ t ltac:(discriminate) Wm Hf2).
+      rewrite prepend_prepend. cbn [app]. rewrite pongs_if_app.
+      rewrite app_length, bumps_if_add.
       replace ((if text then 1 else 2) =? 1) with text by (destruct text; reflexivity).
       reflexivity.
-  - cbn [item_bytes item_msgs item_pings] in *.
+  - cbn [item_bytes item_msgs item_pings item_pt] in *.
     replace (ctl_frame c) with (ctls_bytes [c]) in * by (unfold ctls_bytes; cbn; apply app_nil_r).
-    rewrite (loop_ctls [c] f _ t) by (try assumption; repeat constructor; exact W).
+    rewrite (loop_ctls [c] f cs _ t) by (try assumption; repeat constructor; exact W).
     cbn [pend ptype nk map concat]. rewrite app_nil_r. reflexivity.
 Qed.
 
-Theorem loop_items l : forall f n t, Forall wf_item l ->
+Definition items_pt (pt : option N) (l : list item) : option N := fold_left item_pt l pt.
+
+Theorem loop_items l : forall f cs pt n t, Forall wf_item l ->
   (length (items_bytes l ++ t) < f)%nat ->
-  loop f false (mkP [] None n) (items_bytes l ++ t) =
-  prepend (expected_msgs l) (pongs n (expected_pings l))
-    (loop f false (mkP [] None (bumps n (length (expected_pings l)))) t).
+  loop f cs (mkP [] pt n) (items_bytes l ++ t) =
+  prepend (expected_msgs l) (pongs_if cs n (expected_pings l))
+    (loop f cs (mkP [] (items_pt pt l) (bumps_if cs n (length (expected_pings l)))) t).
 Proof.
-  induction l as [|i l IH]; intros f n t W Hf.
-  - cbn. now rewrite prepend_nil.
+  induction l as [|i l IH]; intros f cs pt n t W Hf.
+  - cbn. now rewrite pongs_if_nil, bumps_if_0, prepend_nil.
   - inversion W as [|? ? Wi Wl]; subst.
-    unfold items_bytes, expected_msgs, expected_pings in *. cbn [map concat] in *.
+    unfold items_bytes, expected_msgs, expected_pings, items_pt in *. cbn [map concat fold_left] in *.
     rewrite <- app_assoc in *.
-    rewrite (loop_item i f n _ Wi Hf).
+    rewrite (loop_item i f cs pt n _ Wi Hf).
     assert (Hf' : (length (concat (map item_bytes l) ++ t) < f)%nat)
       by (rewrite app_length in Hf; lia).
-    rewrite (IH f _ t Wl Hf').
-    rewrite prepend_prepend, pongs_app, app_length, bumps_add. reflexivity.
+    rewrite (IH f cs _ _ t Wl Hf').
+    rewrite prepend_prepend, pongs_if_app, app_length, bumps_if_add. reflexivity.
 Qed.
 
-(* ---- the component: a clean state, key index n *)
+(* ---- from ANY codec state: the stream first completes the pending message (if one is pending),
+   then carries whole items *)
+Definition stream_ok (p : pstate) (more : list frag) : Prop :=
+  match more with
+  | [] => pend p = []                       (* nothing half-assembled, or it is empty so far *)
+  | _ :: _ => exists ty, ptype p = Some ty  (* a first fragment has been seen *)
+  end.
+Definition completed (p : pstate) (more : list frag) : list msg :=
+  match more with
+  | [] => []
+  | _ :: _ => [(match ptype p with Some ty => ty =? 1 | None => false end,
+                pend p ++ concat (map frag_payload more))]
+  end.
+Definition stream_pt (p : pstate) (more : list frag) (l : list item) : option N :=
+  items_pt (match more with [] => ptype p | _ :: _ => None end) l.
+Definition stream_pings (more : list frag) (l : list item) : list (list N) :=
+  frags_pings more ++ expected_pings l.
+
+Theorem loop_stream f cs p more l t : stream_ok p more -> Forall wf_frag more -> Forall wf_item l ->
+  (length (conts_bytes more ++ items_bytes l ++ t) < f)%nat ->
+  loop f cs p (conts_bytes more ++ items_bytes l ++ t) =
+  prepend (completed p more ++ expected_msgs l) (pongs_if cs (nk p) (stream_pings more l))
+    (loop f cs (mkP [] (stream_pt p more l) (bumps_if cs (nk p) (length (stream_pings more l)))) t).
+Proof.
+  intros OK Wm Wl Hf. unfold stream_pings, stream_pt, completed.
+  destruct more as [|fr more'].
+  - cbn [stream_ok] in OK. destruct p as [pe pt n]. cbn [pend ptype nk] in *. subst pe.
+    cbn [conts_bytes app] in *. unfold frags_pings. cbn [map concat app].
+    now apply loop_items.
+  - destruct OK as [ty Ety]. destruct p as [pe pt n]. cbn [pend ptype nk] in *. subst pt.
+    rewrite (loop_conts (fr :: more') f cs pe ty n _ ltac:(discriminate) Wm Hf).
+    assert (Hf' : (length (items_bytes l ++ t) < f)%nat) by (rewrite app_length in Hf; lia).
+    rewrite (loop_items l f cs None _ t Wl Hf').
+    rewrite prepend_prepend, pongs_if_app, app_length, bumps_if_add. reflexivity.
+Qed.
+
+(* ---- the component *)
 Definition clean (n : nat) : st := mkS [] (mkP [] None n) false false.
 Notation recv := (recv keyf client).
 Notation recv_all := (recv_all keyf client).
 Notation send := (send keyf client).
+Notation on_close := (on_close keyf client).
 
-Theorem recv_items l n : Forall wf_item l ->
-  recv (clean n) (items_bytes l) =
-  ROk (clean (bumps n (length (expected_pings l))),
-       mkO (expected_msgs l) (pongs n (expected_pings l)) 0).
+Definition after_stream (s : st) (more : list frag) (l : list item) : st :=
+  mkS [] (mkP [] (stream_pt (ps s) more l)
+              (bumps_if (csent s) (nk (ps s)) (length (stream_pings more l)))) false (csent s).
+Definition out_stream (s : st) (more : list frag) (l : list item) : out :=
+  mkO (completed (ps s) more ++ expected_msgs l)
+      (pongs_if (csent s) (nk (ps s)) (stream_pings more l)) 0.
+
+Theorem recv_stream s more l c : crecv s = false ->
+  stream_ok (ps s) more -> Forall wf_frag more -> Forall wf_item l ->
+  buf s ++ c = conts_bytes more ++ items_bytes l ->
+  recv s c = ROk (after_stream s more l, out_stream s more l).
 Proof.
-  intros W. unfold WebSocket.recv, clean. cbn [crecv buf csent WebSocket.ps app].
-  rewrite <- (app_nil_r (items_bytes l)) at 2.
-  rewrite loop_items by (try assumption; rewrite app_nil_r; lia).
-  destruct (length (items_bytes l)); cbn [WebSocket.loop prepend r_closed r_msgs r_writes r_buf r_ps];
+  intros Ec OK Wm Wl E. unfold WebSocket.recv. rewrite Ec, E.
+  set (d := conts_bytes more ++ items_bytes l).
+  assert (Ed : d = conts_bytes more ++ items_bytes l ++ []) by (now rewrite app_nil_r).
+  rewrite Ed at 2. rewrite loop_stream by (try assumption; rewrite <- Ed; lia).
+  unfold after_stream, out_stream.
+  destruct (length d); cbn [WebSocket.loop prepend r_closed r_msgs r_writes r_buf r_ps];
     now rewrite !app_nil_r.
 Qed.
 
-(* a close frame ends it: what follows is never looked at, the close frame is answered once *)
-Theorem recv_items_close l n k q junk : Forall wf_item l -> wf_len q ->
-  recv (clean n) (items_bytes l ++ rfc_frame true 8 k q ++ junk) =
-  ROk (mkS [] (mkP [] None (bumps n (length (expected_pings l)))) true true,
-       mkO (expected_msgs l) (pongs n (expected_pings l) ++ [[136; 0]]) 1).
+(* the close frame the endpoint sends: masked iff client *)
+Lemma on_close_rfc s : csent s = false ->
+  on_close s = ROk (mkS (buf s) (mkP (pend (ps s)) (ptype (ps s)) (bump (nk (ps s)))) (crecv s) true,
+                    mkO [] [rfc_frame true 8 (okey (nk (ps s))) []] (if crecv s then 1 else 0)%nat).
+Proof. intros H. unfold WebSocket.on_close. rewrite H, out_key_okey, encode_tail_rfc. reflexivity. Qed.
+Lemma on_close_sent s : csent s = true ->
+  on_close s = ROk (mkS (buf s) (ps s) (crecv s) true, mkO [] [] (if crecv s then 1 else 0)%nat).
+Proof. intros H. unfold WebSocket.on_close. now rewrite H. Qed.
+
+Definition close_reply (cs : bool) (n : nat) : list (list N) :=
+  if cs then [] else [rfc_frame true 8 (okey n) []].
+
+Theorem recv_stream_close s more l k q junk c : crecv s = false ->
+  stream_ok (ps s) more -> Forall wf_frag more -> Forall wf_item l -> wf_len q ->
+  buf s ++ c = conts_bytes more ++ items_bytes l ++ rfc_frame true 8 k q ++ junk ->
+  recv s c =
+  ROk (let s1 := after_stream s more l in
+       mkS [] (mkP [] (ptype (ps s1)) (if csent s then nk (ps s1) else bump (nk (ps s1)))) true true,
+       mkO (delivered (out_stream s more l))
+           (written (out_stream s more l) ++ close_reply (csent s) (nk (ps (after_stream s more l)))) 1).
 Proof.
-  intros W Wq. unfold WebSocket.recv, clean. cbn [crecv buf csent WebSocket.ps app].
-  set (d := items_bytes l ++ rfc_frame true 8 k q ++ junk).
-  unfold d at 2. rewrite loop_items by (try assumption; fold d; lia).
-  rewrite loop_rfc; [|lia|assumption|].
-  - rewrite act_close.
-    cbn [prepend r_closed r_msgs r_writes r_buf r_ps on_close
-         crecv buf csent WebSocket.ps written pclose].
-    now rewrite !app_nil_r.
-  - subst d. rewrite !app_length. lia.
+  intros Ec OK Wm Wl Wq E. unfold WebSocket.recv. rewrite Ec, E.
+  set (d := conts_bytes more ++ items_bytes l ++ rfc_frame true 8 k q ++ junk).
+  unfold d at 2. rewrite loop_stream by (try assumption; fold d; lia).
+  rewrite loop_rfc; [|lia|assumption|subst d; rewrite !app_length; lia].
+  rewrite act_close.
+  cbn [prepend r_closed r_msgs r_writes r_buf r_ps]. rewrite !app_nil_r.
+  unfold after_stream, out_stream, close_reply. cbn [ps nk ptype delivered written csent].
+  destruct (csent s) eqn:Ecs.
+  - rewrite on_close_sent by reflexivity. cbn [crecv buf WebSocket.ps written pclose]. now rewrite app_nil_r.
+  - rewrite on_close_rfc by reflexivity. cbn [crecv buf WebSocket.ps written pclose pend ptype nk]. reflexivity.
+Qed.
+
+(* the same for every cut of the stream into reads; what is already in the buffer counts as its beginning *)
+Theorem recv_stream_any_cut s more l c cs : crecv s = false ->
+  stream_ok (ps s) more -> Forall wf_frag more -> Forall wf_item l ->
+  buf s ++ concat (c :: cs) = conts_bytes more ++ items_bytes l ->
+  recv_all s (c :: cs) = ROk (after_stream s more l, out_stream s more l).
+Proof.
+  intros Ec OK Wm Wl E. rewrite (segmentation_ne keyf client cs s c), recv_all_one.
+  now apply recv_stream.
+Qed.
+
+Theorem recv_stream_close_any_cut s more l k q junk c cs : crecv s = false ->
+  stream_ok (ps s) more -> Forall wf_frag more -> Forall wf_item l -> wf_len q ->
+  buf s ++ concat (c :: cs) = conts_bytes more ++ items_bytes l ++ rfc_frame true 8 k q ++ junk ->
+  recv_all s (c :: cs) =
+  ROk (let s1 := after_stream s more l in
+       mkS [] (mkP [] (ptype (ps s1)) (if csent s then nk (ps s1) else bump (nk (ps s1)))) true true,
+       mkO (delivered (out_stream s more l))
+           (written (out_stream s more l) ++ close_reply (csent s) (nk (ps (after_stream s more l)))) 1).
+Proof.
+  intros Ec OK Wm Wl Wq E. rewrite (segmentation_ne keyf client cs s c), recv_all_one.
+  now apply (recv_stream_close s more l k q junk).
+Qed.
+
+(* ---- corollaries for the clean state (nothing buffered, nothing pending, no close) *)
+Lemma items_pt_none l : items_pt None l = None.
+Proof. unfold items_pt. induction l as [|i l IH]; [reflexivity|]. cbn [fold_left]. now destruct i. Qed.
+
+Theorem recv_items_any_cut l n chunks : Forall wf_item l -> concat chunks = items_bytes l ->
+  recv_all (clean n) chunks =
+  ROk (clean (bumps n (length (expected_pings l))),
+       mkO (expected_msgs l) (pongs n (expected_pings l)) 0).
+Proof.
+  intros W E. rewrite (segmentation keyf client (clean n) chunks eq_refl), E, recv_all_one.
+  rewrite (recv_stream (clean n) [] l (items_bytes l)); try assumption; try reflexivity; try constructor.
+  unfold after_stream, out_stream, stream_pt, stream_pings, clean, frags_pings.
+  cbn [ps ptype nk csent completed map concat app pongs_if bumps_if]. now rewrite items_pt_none.
+Qed.
+
+Theorem recv_items_close_any_cut l n k q junk chunks : Forall wf_item l -> wf_len q ->
+  concat chunks = items_bytes l ++ rfc_frame true 8 k q ++ junk ->
+  recv_all (clean n) chunks =
+  ROk (mkS [] (mkP [] None (bump (bumps n (length (expected_pings l))))) true true,
+       mkO (expected_msgs l)
+           (pongs n (expected_pings l) ++ [rfc_frame true 8 (okey (bumps n (length (expected_pings l)))) []]) 1).
+Proof.
+  intros W Wq E. rewrite (segmentation keyf client (clean n) chunks eq_refl), E, recv_all_one.
+  rewrite (recv_stream_close (clean n) [] l k q junk); try assumption; try reflexivity; try constructor.
+  unfold after_stream, out_stream, stream_pt, stream_pings, clean, frags_pings, close_reply.
+  cbn [ps ptype nk csent completed map concat app pongs_if bumps_if delivered written].
+  now rewrite items_pt_none.
+Qed.
+
+(* one unfragmented frame, any length class, any key, any cut *)
+Theorem roundtrip (text : bool) mk p n chunks : wf_len p ->
+  concat chunks = rfc_frame true (if text then 1 else 2) mk p ->
+  recv_all (clean n) chunks = ROk (clean n, mkO [(text, p)] [] 0).
+Proof.
+  intros Wp E.
+  pose proof (recv_items_any_cut [IMsg text (mk, p, []) []] n chunks) as H.
+  unfold items_bytes, expected_msgs, expected_pings in H.
+  cbn [map concat item_bytes item_msgs item_pings frag_payload frag_ctls fst snd ctls_bytes conts_bytes
+       ctl_pings app length bumps pongs] in H.
+  rewrite !app_nil_r in H. apply H; [|exact E].
+  repeat constructor. exact Wp.
 Qed.
 
 (* the write handler emits exactly the RFC frame of the message *)
@@ -805,47 +971,230 @@ Proof.
   - now apply parse_frame_total in E.
 Qed.
 
+Lemma on_close_total s : exists s' o, on_close s = ROk (s', o).
+Proof. destruct (csent s) eqn:E; [rewrite on_close_sent|rewrite on_close_rfc]; eauto. Qed.
+
 Theorem recv_total s c : exists s' o, recv s c = ROk (s', o).
 Proof.
   pose proof (recv_no_fuel keyf client s c) as NF.
   unfold WebSocket.recv in *. destruct (crecv s); [eauto|].
   pose proof (loop_no_crash (S (length (buf s ++ c))) (csent s) (ps s) (buf s ++ c)) as NC.
   destruct (WebSocket.loop _ _ _ _ _ _) as [r| |]; try congruence.
-  destruct (r_closed r); [unfold on_close|]; eauto.
+  destruct (r_closed r); [|eauto].
+  destruct (on_close_total (mkS (r_buf r) (r_ps r) true (csent s))) as (s2 & o2 & ->). eauto.
 Qed.
 
-(* messages, fragmented or not, with control frames in between, under every cut into reads *)
-Theorem recv_items_any_cut l n chunks : Forall wf_item l -> concat chunks = items_bytes l ->
-  recv_all (clean n) chunks =
-  ROk (clean (bumps n (length (expected_pings l))),
-       mkO (expected_msgs l) (pongs n (expected_pings l)) 0).
+(* ---- every frame a client endpoint writes is masked, every frame a server endpoint writes is not *)
+Definition masked_as (b : bool) (w : list N) : Prop := frame_mask_bit w = Some b.
+
+Lemma rfc_mask_bit fin op mk p :
+  frame_mask_bit (rfc_frame fin op mk p) = Some (match mk with Some _ => true | None => false end).
 Proof.
-  intros W E. rewrite (segmentation keyf client (clean n) chunks eq_refl), E.
-  rewrite recv_all_one. now apply recv_items.
+  unfold rfc_frame, rfc_tail, frame_mask_bit.
+  set (n := N.of_nat (length p)).
+  destruct mk as [k|].
+  - destruct (n <=? 125) eqn:E1; [|destruct (n <=? 65535) eqn:E2]; cbn [app]; f_equal;
+      first [apply (proj1 (hdr1 true n ltac:(lia))) | reflexivity].
+  - destruct (n <=? 125) eqn:E1; [|destruct (n <=? 65535) eqn:E2]; cbn [app]; f_equal;
+      first [apply (proj1 (hdr1 false n ltac:(lia))) | reflexivity].
 Qed.
 
-Theorem recv_items_close_any_cut l n k q junk chunks : Forall wf_item l -> wf_len q ->
-  concat chunks = items_bytes l ++ rfc_frame true 8 k q ++ junk ->
-  recv_all (clean n) chunks =
-  ROk (mkS [] (mkP [] None (bumps n (length (expected_pings l)))) true true,
-       mkO (expected_msgs l) (pongs n (expected_pings l) ++ [[136; 0]]) 1).
+Lemma okey_mask fin op n p : masked_as client (rfc_frame fin op (okey n) p).
+Proof. unfold masked_as. rewrite rfc_mask_bit. unfold okey. now destruct client. Qed.
+
+Lemma act_write_masked cs p fin o pl w p' : frame_act cs p fin o pl = AWrite w p' -> masked_as client w.
 Proof.
-  intros W Wq E. rewrite (segmentation keyf client (clean n) chunks eq_refl), E.
-  rewrite recv_all_one. now apply recv_items_close.
+  unfold WebSocket.frame_act. rewrite out_key_okey, encode_tail_rfc.
+  destruct fin; [|discriminate]. destruct (o <? 8); [discriminate|].
+  destruct (o =? 8); [discriminate|]. destruct (o =? 9); [|discriminate].
+  destruct cs; [discriminate|]. intros H; inversion H.
+  change (138 :: rfc_tail (okey (nk p)) pl) with (rfc_frame true 10 (okey (nk p)) pl).
+  apply okey_mask.
 Qed.
 
-(* one unfragmented frame, any length class, any key, any cut *)
-Theorem roundtrip (text : bool) mk p n chunks : wf_len p ->
-  concat chunks = rfc_frame true (if text then 1 else 2) mk p ->
-  recv_all (clean n) chunks = ROk (clean n, mkO [(text, p)] [] 0).
+Lemma loop_writes_masked f : forall cs p d r, loop f cs p d = ROk r -> Forall (masked_as client) (r_writes r).
 Proof.
-  intros Wp E.
-  pose proof (recv_items_any_cut [IMsg text (mk, p, []) []] n chunks) as H.
-  unfold items_bytes, expected_msgs, expected_pings in H.
-  cbn [map concat item_bytes item_msgs item_pings frag_payload frag_ctls fst snd ctls_bytes conts_bytes
-       ctl_pings app length bumps pongs] in H.
-  rewrite !app_nil_r in H. apply H; [|exact E].
-  repeat constructor. exact Wp.
+  induction f as [|f IH]; intros cs p d r; [discriminate|]. cbn [WebSocket.loop].
+  destruct d as [|b d']; [intros H; inversion H; constructor|].
+  destruct (parse_frame (b :: d')) as [|fin o pl r'|] eqn:E.
+  - intros H; inversion H; constructor.
+  - destruct (frame_act cs p fin o pl) as [m p'|w p'|p'| |] eqn:EA; try discriminate.
+    + destruct (loop f cs p' r') as [r0| |] eqn:E0; cbn [add_msg]; try discriminate.
+      intros H; inversion H; subst; cbn [r_writes]. now apply IH in E0.
+    + destruct (loop f cs p' r') as [r0| |] eqn:E0; cbn [add_write]; try discriminate.
+      intros H; inversion H; subst; cbn [r_writes]. constructor.
+      * now apply act_write_masked in EA.
+      * now apply IH in E0.
+    + apply IH.
+    + intros H; inversion H; constructor.
+  - discriminate.
+Qed.
+
+Lemma on_close_masked s s' x : on_close s = ROk (s', x) -> Forall (masked_as client) (written x).
+Proof.
+  destruct (csent s) eqn:E; [rewrite on_close_sent by exact E|rewrite on_close_rfc by exact E];
+    intros H; inversion H; cbn [written]; repeat constructor. apply okey_mask.
+Qed.
+
+Theorem step_masked s o s' x : step keyf client s o = ROk (s', x) -> Forall (masked_as client) (written x).
+Proof.
+  destruct o as [c|text p|]; cbn [step].
+  - unfold WebSocket.recv. destruct (crecv s); [intros H; inversion H; constructor|].
+    destruct (WebSocket.loop _ _ _ _ _ _) as [r| |] eqn:EL; try discriminate.
+    apply loop_writes_masked in EL.
+    destruct (r_closed r).
+    + destruct (on_close _) as [[s2 o2]| |] eqn:EO; try discriminate.
+      apply on_close_masked in EO. intros H; inversion H; cbn [written].
+      apply Forall_app; split; assumption.
+    + intros H; inversion H; exact EL.
+  - destruct (csent s) eqn:E.
+    + rewrite send_closed by exact E. intros H; inversion H; constructor.
+    + rewrite send_rfc by exact E. intros H; inversion H; cbn [written]. repeat constructor. apply okey_mask.
+  - apply on_close_masked.
 Qed.
 
 End Items.
+
+(* ================================================================== K. the opening handshake: no byte lost *)
+
+Section Upgrade.
+Variable keyfn : nat -> list N.
+Variable client : bool.
+Notation recv := (recv keyfn client).
+Notation recv_all := (recv_all keyfn client).
+Notation cread_all := (cread_all keyfn client).
+
+Lemma crlf2_app l b : (4 <= length l)%nat -> crlf2 (l ++ b) = crlf2 l.
+Proof. destruct l as [|a1 [|a2 [|a3 [|a4 l']]]]; cbn [length]; try lia. reflexivity. Qed.
+
+Lemma split_head_len l h r : split_head l = Some (h, r) -> (4 <= length l)%nat.
+Proof.
+  revert h r. induction l as [|c t IH]; intros h r; [discriminate|]. cbn [split_head].
+  destruct (crlf2 (c :: t)) eqn:E.
+  - intros _. destruct t as [|a2 [|a3 [|a4 l']]]; try discriminate E. cbn [length]. lia.
+  - destruct (split_head t) as [[h' r']|] eqn:ES; [|discriminate]. intros _.
+    specialize (IH _ _ eq_refl). cbn [length]. lia.
+Qed.
+
+(* the end of the header block, once found, does not move when more bytes arrive *)
+Lemma split_head_app l : forall b h r, split_head l = Some (h, r) -> split_head (l ++ b) = Some (h, r ++ b).
+Proof.
+  induction l as [|c t IH]; intros b h r; [discriminate|].
+  intros H. pose proof (split_head_len _ _ _ H) as L. revert H.
+  change ((c :: t) ++ b) with (c :: (t ++ b)). cbn [split_head].
+  change (c :: (t ++ b)) with ((c :: t) ++ b). rewrite (crlf2_app (c :: t) b L).
+  destruct (crlf2 (c :: t)).
+  - intros H; inversion H; subst. f_equal. f_equal.
+    + now rewrite firstn_app_le.
+    + now rewrite skipn_app_le.
+  - destruct (split_head t) as [[h' r']|] eqn:ES; [|discriminate].
+    first [rewrite (IH b h' r' ES) | rewrite (IH b h' r' eq_refl)]. intros H; inversion H; reflexivity.
+Qed.
+
+Definition lift_open (r : R (st * out)) : R (cstate * out) :=
+  match r with
+  | ROk (s, o) => ROk (COpen s, o)
+  | RCrash => RCrash
+  | RFuel => RFuel
+  end.
+
+Lemma cread_open s cs : cread_all (COpen s) cs = lift_open (recv_all s cs).
+Proof.
+  revert s. induction cs as [|d cs IH]; intros s; [reflexivity|].
+  cbn [WebSocket.cread_all WebSocket.recv_all cread].
+  destruct (recv s d) as [[s1 x]| |]; try reflexivity.
+  rewrite IH. destruct (recv_all s1 cs) as [[s2 y]| |]; reflexivity.
+Qed.
+
+(* every cut of (handshake response ++ frames): the bytes after the header block reach the codec
+   exactly once, as if they had arrived in one read after the handshake *)
+Theorem client_no_bytes_lost chunks : forall acc h rest,
+  split_head acc = None ->
+  split_head (acc ++ concat chunks) = Some (h, rest) ->
+  cread_all (CHandshake acc) chunks = lift_open (recv init rest).
+Proof.
+  induction chunks as [|d cs IH]; intros acc h rest HN HS.
+  - cbn [concat] in HS. rewrite app_nil_r in HS. congruence.
+  - cbn [concat] in HS. rewrite app_assoc in HS.
+    cbn [WebSocket.cread_all cread].
+    destruct (split_head (acc ++ d)) as [[h' r']|] eqn:E.
+    + rewrite (split_head_app _ (concat cs) _ _ E) in HS. inversion HS; subst.
+      rewrite <- (recv_all_one keyfn client init (r' ++ concat cs)).
+      change (r' ++ concat cs) with (concat (r' :: cs)).
+      rewrite <- (segmentation_ne keyfn client cs init r').
+      cbn [WebSocket.recv_all].
+      destruct (recv init r') as [[s1 x]| |]; try reflexivity.
+      rewrite cread_open. destruct (recv_all s1 cs) as [[s2 y]| |]; reflexivity.
+    + rewrite (IH (acc ++ d) h rest E HS).
+      destruct (recv init rest) as [[s o]| |]; cbn [lift_open]; try reflexivity.
+      now rewrite out_app_nil_l.
+Qed.
+
+Corollary client_no_bytes_lost_start chunks h rest :
+  split_head (concat chunks) = Some (h, rest) ->
+  cread_all (CHandshake []) chunks = lift_open (recv init rest).
+Proof. exact (client_no_bytes_lost chunks [] h rest eq_refl). Qed.
+
+(* ---- the dispatcher's codec table: sockets do not interfere; after disconnect nothing is decoded *)
+Definition dsock (o : dop) : nat :=
+  match o with DUpgrade k | DRead k _ | DSend k _ _ | DClose k | DDisconnect k => k end.
+Definition for_sock (k : nat) (ops : list dop) : list dop := filter (fun o => Nat.eqb (dsock o) k) ops.
+Definition outs_of (k : nat) (xs : list (nat * out)) : list (nat * out) :=
+  filter (fun x => Nat.eqb (fst x) k) xs.
+Notation dstep := (dstep keyfn client).
+Notation drun := (drun keyfn client).
+
+Lemma dstep_other t o t1 x k : dstep t o = ROk (t1, x) -> dsock o <> k -> t1 k = t k /\ fst x <> k.
+Proof.
+  intros H NE.
+  assert (S : forall v, t_set t (dsock o) v k = t k).
+  { intros v. unfold t_set. destruct (Nat.eqb_spec k (dsock o)); [congruence|reflexivity]. }
+  destruct o as [j|j d|j tx p|j|j]; cbn [WebSocket.dstep dsock] in *.
+  - inversion H; subst. split; [apply S|exact NE].
+  - destruct (t j) as [s|]; [destruct (recv s d) as [[s' y]| |]|]; inversion H; subst; split; auto; apply S.
+  - destruct (t j) as [s|]; [destruct (send keyfn client s tx p) as [[s' y]| |]|]; inversion H; subst; split; auto; apply S.
+  - destruct (t j) as [s|]; [destruct (on_close keyfn client s) as [[s' y]| |]|]; inversion H; subst; split; auto; apply S.
+  - inversion H; subst. split; [apply S|exact NE].
+Qed.
+
+Lemma dstep_same t t' o t1 x : t (dsock o) = t' (dsock o) -> dstep t o = ROk (t1, x) ->
+  exists t2, dstep t' o = ROk (t2, x) /\ t2 (dsock o) = t1 (dsock o) /\ fst x = dsock o.
+Proof.
+  intros E H.
+  assert (S : forall (a b : table) v, t_set a (dsock o) v (dsock o) = t_set b (dsock o) v (dsock o)).
+  { intros a b v. unfold t_set. now rewrite Nat.eqb_refl. }
+  destruct o as [j|j d|j tx p|j|j]; cbn [WebSocket.dstep dsock] in *.
+  - inversion H; subst. eexists; repeat split. apply S.
+  - rewrite <- E. destruct (t j) as [s|] eqn:Et; [destruct (recv s d) as [[s' y]| |]|]; inversion H; subst;
+      eexists; repeat split; try apply S; congruence.
+  - rewrite <- E. destruct (t j) as [s|] eqn:Et; [destruct (send keyfn client s tx p) as [[s' y]| |]|];
+      inversion H; subst; eexists; repeat split; try apply S; congruence.
+  - rewrite <- E. destruct (t j) as [s|] eqn:Et; [destruct (on_close keyfn client s) as [[s' y]| |]|];
+      inversion H; subst; eexists; repeat split; try apply S; congruence.
+  - inversion H; subst. eexists; repeat split. apply S.
+Qed.
+
+Theorem dispatcher_isolation k ops : forall t t' t1 xs, t k = t' k ->
+  drun t ops = ROk (t1, xs) ->
+  exists t2, drun t' (for_sock k ops) = ROk (t2, outs_of k xs) /\ t2 k = t1 k.
+Proof.
+  induction ops as [|o ops IH]; intros t t' t1 xs E H.
+  - inversion H; subst. exists t'. split; [reflexivity|now symmetry].
+  - cbn [WebSocket.drun] in H.
+    destruct (dstep t o) as [[ta x]| |] eqn:ES; try discriminate.
+    destruct (drun ta ops) as [[tb ys]| |] eqn:ER; try discriminate.
+    inversion H; subst. unfold for_sock, outs_of in *. cbn [filter].
+    destruct (Nat.eqb_spec (dsock o) k) as [EQ|NE].
+    + subst k. destruct (dstep_same t t' o ta x E ES) as (t2 & ES' & E2 & Fx).
+      rewrite Fx, Nat.eqb_refl.
+      destruct (IH ta t2 t1 ys (eq_sym E2) ER) as (t3 & ER' & E3).
+      exists t3. cbn [WebSocket.drun]. rewrite ES', ER'. split; [reflexivity|exact E3].
+    + destruct (dstep_other t o ta x k ES NE) as [Ek Fx].
+      destruct (Nat.eqb_spec (fst x) k); [contradiction|].
+      apply (IH ta t' t1 ys); [congruence|exact ER].
+Qed.
+
+Theorem disconnect_forgets t k d : dstep (t_set t k None) (DRead k d) = ROk (t_set t k None, (k, no_out)).
+Proof. cbn [WebSocket.dstep]. unfold t_set at 1. now rewrite Nat.eqb_refl. Qed.
+
+End Upgrade.
